@@ -16,11 +16,9 @@ CHECKS = {
  "C01": C("proof",
    "Partial proof. Theorems coq/props/C01.v establish the components the refinement rests on, each for all inputs: storage semantics (read-after-write, non-interference of disjoint writes, write at the end appends, delete zero-fills or truncates exactly as random-access-memory, shrink-then-grow exposes zeros); journal order of an append (block data at offset = byte length, then the oplog entry, then the flush group, header, truncate); the byte-offset walk over a tree whose lookups return consistent sizes equals the sum of the roots and leaves strictly left of the block; reference-tree node sizes are the block-size sums (with C05: the tree built by any batching IS the reference tree; C08: has() is the range semantics; C13: get of a missing block has no side effect). NOT proved: the single end-to-end refinement theorem across flush / reopen / replay. That composition is decided on every run by the Coq model executed against the crate (observations and storage journals compared operation by operation) under the list-model oracle: corpus, bounded-exhaustive histories over a 9-letter alphabet, seeded random histories with reopen after arbitrary prefixes, a core crossing 8192 and 32768 blocks.",
    "DESIGN.md 6.1", GLUE, "Coq proofs of the components + correspondence check of the executable model + list-model oracle"),
- "C02": C("fault_enumeration",
-   "Every crash point of every generated history: all prefixes of the journal of mutating storage operations, plus singleton and "
-   "co-singleton subsets of each unordered flush group; each crash state is recovered on the crate and on the Coq model, judged by the "
-   "before-or-after oracle and continued (append/clear, reopen, read everything).",
-   "DESIGN.md 6.2", GLUE, "crash-point enumeration on implementation and Coq model"),
+ "C02": C("proof",
+   "Partial proof. Theorems coq/props/C02.v, at the level of the oplog file content and Oplog::open, assuming only that the CRC fits 32 bits: from any stable state (both header slots valid, or one invalid; entries carrying the current entry bit), for an append of one entry, for a flush (header into the non-current slot, then truncate) and for make_read_only (slot, truncate, slot, truncate), EVERY cut point of the operation's storage journal reopens to exactly the (header, entries) before the operation or exactly the one after it, and the final state is stable again, so the argument iterates over any history; entries of the previous epoch are never replayed and are cut off by open; in make_read_only the entries are gone before the second slot is rewritten (repaired defect D20, with the counterfactual); a crash during creation reopens as empty storage. With C08_replay_exact (bitfield and contiguous length replayed over any mixture of old and new pages) and C01_append_journal_order (data, then entry, then flush group, then header, then truncate). NOT proved: the tree and data stores and the composition with Hypercore::new over all four stores. That composition is decided on every run: every crash point (all journal prefixes, singleton and co-singleton subsets of the unordered flush group) of every generated history is recovered on the crate and on the model, judged by the before-or-after oracle and continued (append/clear, reopen, read everything).",
+   "DESIGN.md 6.2", GLUE, "Coq proof (write-ahead-log argument on the oplog content) + crash-point enumeration on crate and model"),
  "C03": C("exploration",
    "Replication worlds (writer growth, clears, replica reopen, full and partial upgrades, block/hash/seek requests built from the "
    "replica's own missing-node query) run on crate and model; oracle: honest proof accepted, replica blocks byte-identical, lengths.",
@@ -34,16 +32,15 @@ CHECKS = {
  "C06": C("proof",
    "Theorems coq/props/C06.v: header, oplog entry (all eight combinations of the flag bits 2/4/8), CRC frame (header bit, partial bit, 30-bit length) and 40-byte tree node decode back to themselves with nothing left over; a sequence of well-formed frames carrying the current header bit is scanned completely with the fuel Oplog::open uses (termination), stopping at the first missing/torn/other-bit frame; trailing partial entries, and only those, are dropped; the slot rule (a flush writes the non-current slot, which becomes current). Page (de)serialisation is in C08. Partial: 'reader of the four files = API state in every reachable state' is decided on every run by the independent JS-layout reader (tools/jsfmt.py) at every operation boundary, by synthetic JS-valid oplogs opened by the crate, and by the certified hashes of the five-step interop scenario; user_data/reorgs are outside the model.",
    "DESIGN.md 6.6", GLUE, "Coq proof (codec round trips, scan termination) + independent reader/writer + golden hashes"),
- "C07": C("fault_enumeration",
-   "As C02, plus every proper byte prefix of the write in progress (all prefixes for writes up to 64 bytes; framing boundaries, sector "
-   "boundaries and seeded cuts for longer ones).", "DESIGN.md 6.7", GLUE, "torn-write enumeration on implementation and Coq model"),
+ "C07": C("proof",
+   "Partial proof. Theorems coq/props/C07.v at the level of the oplog file content and Oplog::open: a log entry torn at any byte is no frame and is cut off by open, with no checksum argument at all; a header slot write torn at any byte reopens to the state before, or to the state after (whole frame arrived, padding missing), or two different byte strings with the same CRC-32 are exhibited (for t >= 8 of equal length) \u2014 the honest escape clause of a 32-bit checksum; likewise for both slot writes of make_read_only; torn creation reopens as empty storage; a torn write followed by its remainder equals the whole write. Side condition stated in the theorems: a tear inside the 4-byte CRC field of a slot that was already invalid needs that slot to be dead (proved for the zero-filled slot of a fresh log; Crash.v has the counterexample for an arbitrary invalid slot, which needs two torn crashes in a row \u2014 DESIGN 12.5). NOT proved: torn writes to the tree, bitfield and data stores (re-derived by replay: C08_replay_exact). On every run every write of every generated history is torn at every byte (writes up to 64 bytes) or at framing/sector boundaries and seeded cuts and recovered on crate and model under the before-or-after oracle.",
+   "DESIGN.md 6.7", GLUE, "Coq proof (torn frame = no frame; before/after/CRC-collision trichotomy) + torn-write enumeration"),
  "C08": C("proof",
    "Theorems coq/props/C08.v, for unbounded indices (any number of 32768-bit pages): has() after set_range/apply is exactly the range semantics; every page whose content changed is dirty and clean pages serialise unchanged (a flush writes every changed page); page bytes <-> bits exact at every page index and reload of pages exact; the contiguous-length hint maintained by the crate's incremental rule IS the smallest index not held after every update (including termination of the skip loop within its fuel, by a pigeonhole argument); replaying the oplog entries over ANY mixture of old and new bitfield pages yields the exact bitfield and the exact contiguous length (crash recovery). Partial: that a crash leaves such a mixture and that no bit at or beyond the length is ever set are established by the correspondence runs (has() swept over every index of cores crossing 8192/32768/65536 blocks, sparse replica, crash inside a flush).",
    "DESIGN.md 6.8", GLUE, "Coq proof (range semantics, pigeonhole, replay invariant) + exhaustive has() sweep"),
- "C09": C("exploration",
-   "Boundary request tuples on six core shapes, structurally arbitrary proofs and the C04 alteration set, under catch_unwind and a "
-   "watchdog in a build with overflow checks; the model has explicit Panic/OutOfFuel outcomes at every arithmetic, index and loop site "
-   "and must agree.", "DESIGN.md 6.9", GLUE, "hostile-input enumeration + correspondence"),
+ "C09": C("proof",
+   "Partial proof. Theorems coq/props/C09.v over the model in which every u64 overflow, index error, unwrap and loop of the crate's proof code is an explicit Panic/OutOfFuel outcome: for numeric fields below 2^40 and node lists of any length, verification of every proof without an upgrade section returns a value or an error against every tree and store (the root index reached stays below 2^42, so the store offset cannot overflow); verification with an upgrade section never panics when the byte lengths carried by its node lists cannot overflow u64 in sum (lists up to 2^20 nodes); creating a block proof returns for every index and node count. NOT proved: termination (fuel) of the upgrade loops for arbitrary hostile lists (only under the size conditions of NoPanic.v), and proof creation for hash/seek/upgrade requests. Those, and the Rust-only panics the model cannot contain (allocation, slices inside dependencies), are decided on every run by boundary request tuples on six core shapes, structurally arbitrary proofs and the C04 alteration set under catch_unwind + watchdog in a build with overflow checks, with the model required to agree.",
+   "DESIGN.md 6.9", GLUE, "Coq proof (totality of the verifier, explicit panic sites) + hostile-input enumeration with correspondence"),
  "C10": C("fault_enumeration",
    "One injected I/O error at every storage operation (reads, length queries, writes, deletes, truncates; during open too) of every "
    "history: the call must answer an error, reopening must show before-or-after with everything earlier intact (also on the model).",
